@@ -14,6 +14,7 @@ CONSTANTS
   RestoreOnReturn = TRUE
   EmbRestoreAll = FALSE
   SuperCheckFirst = TRUE
+  AncestryWalk = TRUE
   GuardCanonical = TRUE
   RegisterAfterCreate = TRUE
   NsCachesInit = TRUE
